@@ -1,5 +1,5 @@
 """R-TLS: interpreter state that outlives one evaluation is restored on every exit."""
-from ..mir import strip, show, short_path, contains
+from ..mir import rel_fact, strip, show, short_path, contains
 from ..report import ok, bad, info, site, Floor
 
 RULE = "R-TLS"
@@ -67,10 +67,11 @@ def check_check_depth(prog):
         # the increment must be under the `current < max` edge
         lt = False
         for u, v, (d, val) in f.facts_at(b):
-            sd = strip(d)
-            if sd[0] == "bin" and sd[1] in ("Lt", "Ge") and isinstance(val, bool):
-                if (sd[1] == "Lt") == val:
-                    lt = True
+            r = rel_fact(d, val)
+            # `current < max`, however it is spelled (`max > current`, `!(current >= max)`)
+            if r and r[0] == "Lt" and contains(r[2], lambda x: x[0] == "field" and x[2] == "max_stack_size") \
+                    and not contains(r[1], lambda x: x[0] == "field" and x[2] == "max_stack_size"):
+                lt = True
         if not lt:
             problems.append("the increment is not dominated by the `current < max_stack_size` test")
     # the error path must not have set anything
